@@ -93,6 +93,18 @@ def woottersReadout (ev : List α) : α :=
   let l := ev.map fun x => SqrtLog.sqrt (pyMax0 x)
   pyMax0 (2 * l.getLastD 0 - l.foldl (· + ·) 0)
 
+/-- the scale applied to an eigenvector column in `set_density_matrix` of every variational model (`eof.py:150-153`, `measure.py:82-85`):
+`np.sqrt(np.maximum(0, EVL[-rank:]))`; the columns are `EVC[:, -rank:]` -/
+def sqrtRhoScale (lam : α) : α := SqrtLog.sqrt (pyMax0 lam)
+
+/-- `_sqrt_rho[k, j]` (real or imaginary part `v` of `EVC[k, N-rank+j]`) from the `eigh` output, `N` = dimension -/
+def sqrtRhoEntry (evl : List α) (N rank j : Nat) (v : α) : α := v * sqrtRhoScale (evl.getD (N - rank + j) 0)
+
+/-- the read-out of `get_negativity` from the spectrum returned by `np.linalg.eigvals` (`_misc.py:232`): `(sum(abs(ev)) - 1)/2`
+(real spectrum: the partial transpose of a Hermitian matrix is Hermitian) -/
+def negativityReadout (ev : List α) : α :=
+  ((ev.map fun x => if x < 0 then -x else x).foldl (· + ·) 0 - 1) / 2
+
 /-- `get_eof_pure` from the eigenvalues of the reduced state (`eof.py:78-80`): `EVL = EVL[EVL>eps]; -dot(EVL, log(EVL))` -/
 def eofPureFromWeights (eps : α) (ev : List α) : α :=
   -((ev.filter fun x => decide (eps < x)).foldl (fun acc x => acc + x * SqrtLog.log x) 0)
